@@ -222,7 +222,7 @@ class SetMembersMixin:
             if replaced is not None:
                 # Re-target aliases once the new member is attached,
                 # so that they record its actual path, not its detached one.
-                for alias in replaced.aliases.values():
+                for alias in list(replaced.aliases.values()):
                     with suppress(AliasResolutionError, CyclicAliasError):
                         alias.target = value
         else:
